@@ -277,6 +277,8 @@ func (w *walker) bin(b []byte, what string, nocopy bool) {
 	if b == nil {
 		return
 	}
+	hdr := (*[3]uintptr)(unsafe.Pointer(&b)) // read the header words: the compiler assumes len <= cap and would fold the comparison
+	vrt.Check(hdr[1] <= hdr[2], "C06 decoded slice is well-formed (len <= cap)")
 	if len(b) == 0 {
 		p := unsafe.Pointer(unsafe.SliceData(b))
 		blo, bhi := w.bufRange()
